@@ -174,14 +174,121 @@ pub fn felt(s: &mut Src, m: Md) -> Felt {
     }
 }
 
+/// four limbs, each from the boundary table {0, 1, 2^63, 2^64-1, 2^64-2, uniform}
+pub fn limb_pattern(s: &mut Src) -> BigUint {
+    let mut l = [0u64; 4];
+    for li in l.iter_mut() {
+        *li = match s.choose(8) {
+            0 | 1 => 0,
+            2 => 1,
+            3 => 1u64 << 63,
+            4 => u64::MAX,
+            5 => u64::MAX - 1,
+            _ => s.u64(),
+        };
+    }
+    limbs_to_big(&l)
+}
+
+/// a stored (Montgomery-side) value < p aimed at the boundaries of the final reduction: small j, p - j, 2^256 - p + j
+/// (pre-subtraction value 2^256 + j), or a limb pattern
+pub fn stored_pattern(s: &mut Src, m: Md) -> BigUint {
+    let p = m.p();
+    let j = BigUint::from(s.choose16(401) as u32);
+    match s.choose(5) {
+        0 => j % p,
+        1 => (p - 1u32 - j) % p,
+        2 => (&zp::c().two256 - p + j) % p,
+        3 => ((&zp::c().two256 - p) + p - 1u32 - j) % p,
+        _ => {
+            let mut x = limb_pattern(s);
+            while &x >= p {
+                x -= p;
+            }
+            x
+        }
+    }
+}
+
+/// inverse of an odd number modulo 2^256 (Newton iteration)
+pub fn inv_mod_2_256(a: &BigUint) -> BigUint {
+    let r = &zp::c().two256;
+    let mut x = BigUint::one();
+    for _ in 0..9 {
+        let ax = (a * &x) % r;
+        let t = (r + 2u32 - ax) % r;
+        x = (x * t) % r;
+    }
+    debug_assert!(((a * &x) % r).is_one());
+    x
+}
+
 /// a pair with a chosen relation between the two canonical / stored values
 pub fn felt_pair(s: &mut Src, m: Md) -> (Felt, Felt, &'static str) {
     let p = m.p();
     let a = felt(s, m);
-    match s.weighted(&[8, 2, 2, 2, 2, 2, 2]) {
+    match s.weighted(&[8, 2, 2, 2, 2, 2, 2, 3, 3, 2]) {
         0 => {
             let b = felt(s, m);
             (a, b, "independent")
+        }
+        7 => {
+            // result-targeted: b = t / a, so that the *stored* (Montgomery) product a*b is a boundary pattern t
+            let t = stored_pattern(s, m);
+            let av = if a.v.is_zero() { BigUint::one() } else { a.v.clone() };
+            let ct = (&t * m.rinv()) % p; // canonical value whose stored representative is t
+            let b = zp::mul_mod(&ct, &zp::inv_mod(&av, p).unwrap(), p);
+            (Felt { v: av, class: a.class }, Felt { v: b, class: "derived" }, "product-stored-target")
+        }
+        8 => {
+            // square-targeted: a = b = sqrt(c) with the stored value of c (or of the next residue above it) a boundary pattern
+            let mut t = stored_pattern(s, m);
+            let mut tries = 0;
+            loop {
+                let ct = (&t * m.rinv()) % p;
+                if let Some(rt) = zp::sqrt_mod_5mod8(&ct, p) {
+                    let rt = if s.bool() { rt } else { zp::neg_mod(&rt, p) };
+                    return (Felt { v: rt.clone(), class: "derived" }, Felt { v: rt, class: "derived" }, "square-stored-target");
+                }
+                t = (t + 1u32) % p;
+                tries += 1;
+                if tries > 64 {
+                    let b = Felt { v: a.v.clone(), class: a.class };
+                    return (a, b, "equal");
+                }
+            }
+        }
+        9 => {
+            // quotient-targeted: choose the Montgomery quotient m = T * (-p^-1) mod 2^256 (its limbs are the per-round
+            // reduction digits) as a boundary pattern and derive the stored b from an odd stored a
+            let two256 = &zp::c().two256;
+            let mut sa = mont_of(&a.v, m);
+            if !sa.bit(0) {
+                sa += 1u32;
+            }
+            if &sa >= p {
+                sa = BigUint::one();
+            }
+            let mut q_digits = limb_pattern(s);
+            let sa_inv = inv_mod_2_256(&sa);
+            let mut tries = 0;
+            loop {
+                // T = sa * sb must satisfy T = -m * p (mod 2^256)
+                let want_low = (two256 - (&q_digits * p) % two256) % two256;
+                let sb = (&want_low * &sa_inv) % two256;
+                if &sb < p {
+                    let av = (&sa * m.rinv()) % p;
+                    let bv = (&sb * m.rinv()) % p;
+                    return (Felt { v: av, class: "derived" }, Felt { v: bv, class: "derived" }, "quotient-digit-target");
+                }
+                // perturb the top digit and try again (sb is uniform-ish: succeeds with probability ~0.71 per try)
+                q_digits = (q_digits + (BigUint::from(0x9E3779B97F4A7C15u64) << 192)) % two256;
+                tries += 1;
+                if tries > 16 {
+                    let b = felt(s, m);
+                    return (a, b, "independent");
+                }
+            }
         }
         1 => {
             let b = Felt { v: a.v.clone(), class: a.class };
@@ -227,7 +334,37 @@ pub struct Scalar {
 /// scalar in Z_r with the boundary classes named by C01/C05
 pub fn scalar(s: &mut Src) -> Scalar {
     let r = zp::r();
-    match s.weighted(&[4, 3, 3, 2, 2, 3, 5, 2]) {
+    match s.weighted(&[4, 3, 3, 2, 2, 3, 5, 2, 2]) {
+        8 => {
+            // small integer combinations a + b*lambda^e of the order-3 endomorphism eigenvalue: scalars for which
+            // intermediate multiples of P coincide with +-phi(P) (same or opposite y, different x)
+            let l = lambda_r();
+            let l = if s.bool() { l.clone() } else { (l * l) % r };
+            let a = s.choose(9) as i64 - 4;
+            let b = s.choose(9) as i64 - 4;
+            let b = if b == 0 { 1 } else { b };
+            let term = |c: i64, x: &BigUint| -> BigUint {
+                let m = (BigUint::from(c.unsigned_abs()) * x) % r;
+                if c < 0 {
+                    (r - m) % r
+                } else {
+                    m
+                }
+            };
+            let k = (term(a, &BigUint::one()) + term(b, &l)) % r;
+            // optionally use it as a bit *prefix* of a longer scalar (the accumulator of a left-to-right
+            // double-and-add passes through every prefix)
+            let room = 255u64.saturating_sub(k.bits());
+            if s.bool() && room > 0 {
+                let sh = 1 + (s.choose(64) as u64 % room.min(64));
+                let tail = BigUint::from(s.u64()) & ((BigUint::one() << sh) - 1u32);
+                let k2 = (&k << sh) + tail;
+                if &k2 < r {
+                    return Scalar { k: k2, class: "endo-prefix" };
+                }
+            }
+            Scalar { k, class: "endo-combo" }
+        }
         0 => {
             let tbl: [BigUint; 9] = [
                 BigUint::zero(),
